@@ -99,6 +99,7 @@ class Exec(CallsMixin, Interp):
             for prefix, repl in self.c.abstract.items():
                 if seg.startswith(prefix):
                     self.p.used_abstract.add(prefix)
+                    self.p.abstracted_text[prefix] = ast.unparse(st)
                     self.run_ghost(repl)
                     return
             for prefix, extra in self.c.ghost_in_body.items():
